@@ -43,8 +43,10 @@ def props_of(b):
                 out.add("C15")
         if w in ("base", "cap"):
             out.add("C16" if ev.get("id") == 1 else "C15")
-    if ev.get("id") == 1 or ev.get("after") in ("append", "clone", "preappend"):
+    if ev.get("id") in (1, 4, 5) or ev.get("after") in ("append", "clone", "preappend", "append_refused"):
         out.add("C16")
+    if ev.get("after") == "append_refused":
+        out.add("C19")   # a block that does not fit is refused as a whole, leaving bytes, length, PC and labels as they were
     if ev.get("id") == 2:
         out.add("C19")
     if k == "call" and ev.get("refused") and not any(w.startswith("refused_") for w in why):
@@ -86,7 +88,7 @@ PROFILES = {
     "C03": [("decode", 1200, 6000), ("general", 150, 1500), ("rebase", 150, 1000)],
     "C06": [("general", 400, 3000), ("labels", 400, 3000), ("far", 1, 3)],
     "C07": [("straight", 300, 2500), ("general", 100, 800)],
-    "C15": [("general", 400, 3000)],
+    "C15": [("general", 400, 3000), ("farlist", 1, 2)],
     "C16": [("general", 400, 3000), ("labels", 300, 2000)],
     "C19": [("general", 400, 3000), ("rebase", 250, 1500)],
 }
